@@ -228,9 +228,20 @@ class Ctx:
             self.known_hits[finding] = self.known_hits.get(finding, 0) + 1
             return
         self.failures.append(dict(input=inp, impl=impl, expected=expected, core=core, what=what))
+        # a violation is established by the first failing input; a few hundred are kept to pick the smallest replay from, then the exploration
+        # stops (a broken implementation can fail on every input, and each failure costs a full evaluation)
+        if len(self.failures) >= MAX_FAILURES or (len(self.failures) >= 25 and self.elapsed() > 300):
+            raise EnoughFailures()
 
     def elapsed(self):
         return time.time() - self.t0
+
+
+MAX_FAILURES = 400
+
+
+class EnoughFailures(Exception):
+    """raised by Ctx.fail once enough failing inputs have been collected"""
 
 
 def write_replay(prop_id, payload) -> Path:
